@@ -17,18 +17,13 @@ fn get_dependencies_from_type(
                 if seen.insert(id.clone()) {
                     res.push(id.clone());
                     get_dependencies(tp, types, res, seen);
-                    for parameter in parameters {
-                        let id = parameter.id().to_string();
-                        if let Some(tp) = types.get(&id) {
-                            if seen.insert(id.clone()) {
-                                res.push(id.clone());
-                                get_dependencies(tp, types, res, seen);
-                                seen.remove(&id.clone());
-                            }
-                        }
-                    }
                     seen.remove(&id.clone());
                 }
+            }
+            // The arguments are types in their own right: follow them whatever the generic
+            // type is and however deeply they are nested.
+            for parameter in parameters {
+                get_dependencies_from_type(parameter, types, res, seen);
             }
         }
         RustType::Simple { id } => {
